@@ -16,7 +16,7 @@ B_WARN = ()
 
 
 def units(tier, seed):
-    us = cases.fault_units(tier, seed, with_prims=True, thorough_budget=60, two_pairs_all=False)
+    us = cases.fault_units(tier, seed, with_prims=True, thorough_budget=25, two_pairs_all=False)
     for u in us:
         u["seed"], u["tier"], u["mode"] = seed, tier, "mutate"
         if tier == "quick" and u["kind"] != "struct":
